@@ -7,8 +7,6 @@ import GeoProofs.Lemmas.MONOSweep
 namespace Geo.Proofs.MONO
 open Geo Geo.Mono Geo.MonoBuild Geo.Proofs.C10
 
-macro "osplit" h:ident : tactic => `(tactic| (split at $h:ident <;> try (cases $h:ident; done)))
-
 /-- every queued event lies strictly after `lo` -/
 def After (lo : Pt) (st : St) : Prop := ∀ e ∈ st.events, lexLt lo e.pt = true
 
